@@ -34,7 +34,7 @@ A == INSTANCE IAuthContract
 
 mcvars == <<serial, req, slots, ev, out, cst, cviol, inst, npw, oldtags, hist>>
 
-ContractCfg == [svcs |-> Services, required |-> {"host", "ident", "nick", "user"}, timeout |-> TimeoutOn]
+ContractCfg == [svcs |-> IF XQ THEN Services ELSE << >>, required |-> IauthFlags, timeout |-> TimeoutOn, xq |-> XQ]
 
 MCInit == /\ Init
           /\ cst = A!CInit(ContractCfg)
@@ -44,7 +44,7 @@ MCInit == /\ Init
           /\ oldtags = [i \in Ids |-> {}]
           /\ hist = <<>>
 
-SvcNameSet == {Services[n].name : n \in 1..Len(Services)}
+SvcNameSet == IF XQ THEN {Services[n].name : n \in 1..Len(Services)} ELSE {"a1.svc"}
 
 \* texts: <<ref, full length>>; the rich pools straddle the documented limits
 RichP(k) == Rich \/ k \in RichSel
@@ -185,6 +185,7 @@ S_t1b == << [name |-> "a1.svc", type |-> "login-ipr"], [name |-> "b2.svc", type 
 S_t1c == << [name |-> "a1.svc", type |-> "login"], [name |-> "b2.svc", type |-> "login"] >>
 S_t1d == << [name |-> "a1.svc", type |-> "combined"] >>
 S_none == << >>
+S_noxq == << [name |-> "", type |-> "@noxquery"] >>
 NoBug == {}
 NoRich == {}
 RichData == {"data", "shapes"}
